@@ -144,26 +144,31 @@ def run(ck):
                 ints[0] = 2
             p0 = numpy.array(ints, dtype=float)
             arg, form = (list(ints), "list of ints") if h % 8 == 1 else (numpy.array(ints, dtype=int), "integer array")
+        # populations need not be normalised: the overall magnitude is part of the input (powers of two keep the model values exact)
+        pscale = (1.0, 1.0, 2.0 ** -20, 2.0 ** -36, 2.0 ** 20)[h % 5] if form in ("float array", "list of floats") else 1.0
+        if pscale != 1.0:
+            p0 = p0 * pscale
+            arg = p0.copy() if isinstance(arg, numpy.ndarray) else list(p0)
         pops = numpy.asarray(prop.propagate(arg), dtype=float)
         emit("new %d %s" % (N, " ".join(frac(x) for x in K.flatten())), "ok")
         emit("prop %s 4 1 %d %s" % (frac(dt), nt, " ".join(frac(x) for x in p0)),
-             " | ".join(" ".join(frac(x) for x in row) for row in pops), 1e-9 * max(1.0, float(numpy.abs(pops).max())))
+             " | ".join(" ".join(frac(x) for x in row) for row in pops), 1e-9 * float(numpy.abs(p0).sum()))
         ck.case(("prop", N, K.tobytes(), p0.tobytes(), dt, nt), nontrivial=N >= 3, kind="propagate", size=N,
-                coarse_step=bool(dt * numpy.abs(numpy.diag(K)).max() > 1.0), negative_component=bool(pops.min() < -1e-9), initial=form,
+                coarse_step=bool(dt * numpy.abs(numpy.diag(K)).max() > 1.0), negative_component=bool(pops.min() < -1e-9 * float(numpy.abs(p0).sum())), initial=form,
                 sample={"K": K.tolist(), "p0": p0.tolist(), "dt": dt, "nt": nt} if h < 1 else None)
         # oracle: conservation, sign, distance to exp within the truncation bound
         s0 = p0.sum()
-        if numpy.abs(pops.sum(axis=1) - s0).max() > 1e-12 * max(1.0, s0) * nt:
+        if numpy.abs(pops.sum(axis=1) - s0).max() > 1e-12 * s0 * nt:
             ck.fail("propagate:sum", "population sum not conserved", {"K": K.tolist(), "p0": p0.tolist(), "dt": dt, "nt": nt},
                     pops.sum(axis=1).tolist(), s0)
         x = dt * numpy.abs(K).sum(axis=0).max()       # induced 1-norm of dt*K
-        if dt * numpy.abs(numpy.diag(K)).max() <= 1.0 and pops.min() < -1e-12:
+        if dt * numpy.abs(numpy.diag(K)).max() <= 1.0 and pops.min() < -1e-12 * s0:
             ck.fail("propagate:negative", "negative population for an admissible step", {"K": K.tolist(), "p0": p0.tolist(), "dt": dt},
                     float(pops.min()), ">=0")
         eps1 = math.exp(x) - sum(x ** m / math.factorial(m) for m in range(5))
         for i in range(nt):
             ref = scipy.linalg.expm(K * dt * i) @ p0
-            bound = i * math.exp(max(0, i - 1) * x) * eps1 * numpy.abs(p0).sum() + 1e-9
+            bound = (i * math.exp(max(0, i - 1) * x) * eps1 + 1e-9) * numpy.abs(p0).sum()
             err = numpy.abs(pops[i] - ref).sum()
             if err > bound:
                 ck.fail("propagate:exp", "distance to the matrix exponential exceeds the truncation bound",
@@ -178,7 +183,7 @@ def run(ck):
                 if i != j:
                     K[i, j] = rng.randint(1, 16) / 256.0
             K[j, j] = -K[:, j].sum()
-        dt = rng.choice([0.5, 1.0, 2.0])
+        dt = rng.choice([0.5, 1.0, 2.0]) if h % 3 else (0.7, 0.1, 1.3, 0.3)[(h // 3) % 4]     # also steps that are not binary fractions
         ta = TimeAxis(0.0, 200, dt)
         mult = rng.choice([1, 2, 3, 5])
         kind = rng.choice(["same", "grid", "offgrid", "notsubset", "grid"])
@@ -194,6 +199,14 @@ def run(ck):
             start = dt * 0.5 if rng.random() < 0.5 else 0.0
             if start == 0.0:
                 step = dt * 1.5
+        if h % 3 == 0 and kind != "notsubset":
+            # a step that is not a binary fraction: the sub-axis starts at a grid point taken from the axis itself, preferably one where
+            # the floating-point quotient t_k/dt is not k (floor or round of it picks a neighbour)
+            tad = numpy.array(ta.data)
+            cand = [k for k in range(1, 80) if math.floor(tad[k] / dt) != k or tad[k] != k * dt]
+            k0 = cand[(h // 3) % len(cand)] if cand else rng.randint(1, 40)
+            start = float(tad[k0]); step = mult * dt
+            kind = "grid-point-of-the-axis"
         ts = TimeAxis(start, ln, step)
         prop = PopulationPropagator(ta, K.copy())
         inp = {"K": K.tolist(), "axis": [0.0, 200, dt], "sub": [start, ln, step]}
